@@ -10,6 +10,7 @@ import GeoVerif.Driver.Life
 import GeoVerif.Driver.Pair
 import GeoVerif.Driver.Valid
 import GeoVerif.Driver.UiFile
+import GeoVerif.Driver.Depths
 open Lean GeoVerif.Driver
 
 structure DSt where
@@ -34,6 +35,7 @@ def stepLine (st : DSt) (line : String) : DSt × String :=
     | "pair" => (st, (PairD.handle j).compress)
     | "valid" => (st, (ValidD.handle j).compress)
     | "uifile" => (st, (UiFileD.handle j).compress)
+    | "depths" => (st, (DepthsD.handle j).compress)
     | "life" => let (s, o) := LifeD.handle st.life j; ({ st with life := s }, o.compress)
     | _ => (st, "\"bad-model\"")
 
